@@ -35,14 +35,15 @@ QUERY_TIMEOUT_MS = {"quick": 30000, "thorough": 60000}
 
 
 def bounds(tier):
-    return {"files n": [1, 2, 3], "curves per file": "1..3", "progress calls per file": 2,
+    return {"files n": [1, 2, 3] if tier == "quick" else [1, 2, 3, 4, 5, 6], "curves per file": "1..3", "progress calls per file": 2 if tier == "quick" else 4,
             "curve states": ["unfitted", "unsuccessful", "fitted", "fitted+rated", "refitted"]}
 
 
 def tasks(tier):
     ts = []
-    for n in (1, 2, 3):
-        ts.append({"name": f"load:n{n}", "fn": "t_load", "args": {"n": n}, "witnesses": ["loaded"]})
+    for n in ((1, 2, 3) if tier == "quick" else (1, 2, 3, 4, 5, 6)):
+        ts.append({"name": f"load:n{n}", "fn": "t_load", "args": {"n": n, "calls": 2 if tier == "quick" else 4},
+                   "witnesses": ["loaded"]})
     ts.append({"name": "load:no-callback", "fn": "t_load", "args": {"n": 2, "with_cb": False}})
     for sc in (False, True):
         for tp in (False, True):
@@ -91,7 +92,7 @@ def _curve(w, enum, path, sc=True, tp=True):
     return common.make_indentation(w, cols, spring_constant=(Fr(1, 10) if sc else None), path=path, enum=enum)
 
 
-def t_load(n, with_cb=True):
+def t_load(n, with_cb=True, calls=2):
     w, afm = _world()
     read = w.modules["nanite.read"]
     Ind = w.modules["nanite.indent"].Indentation
@@ -108,13 +109,14 @@ def t_load(n, with_cb=True):
                   data_classes_by_modality=None):
         i = paths.index(path)
         seen_kwargs.append(("load", modality, data_classes_by_modality, meta_override))
-        u, v = real(f"p{i}a"), real(f"p{i}b")
-        assume(u >= 0)
-        assume(v >= u)
-        assume(v <= 1)
+        vals = [real(f"p{i}{chr(97 + j)}") for j in range(calls)]
+        assume(vals[0] >= 0)
+        for a_, b_ in zip(vals, vals[1:]):
+            assume(b_ >= a_)
+        assume(vals[-1] <= 1)
         if callback is not None:
-            callback(u)
-            callback(v)
+            for v in vals:
+                callback(v)
         cls = data_classes_by_modality[modality]
         return [_curve(w, e, path) for e in range(counts[i])] if cls is Ind else ["wrong class"]
     afm.find_data = find_data
@@ -129,7 +131,7 @@ def t_load(n, with_cb=True):
     prove("force-distance-modality-requested", all(k[1] == "force-distance" for k in seen_kwargs))
     prove("meta-override-passed-through", all(k[3] is mo for k in seen_kwargs if k[0] == "load"))
     if with_cb:
-        prove("progress-count", len(prog) == 2 * n)
+        prove("progress-count", len(prog) == calls * n)
         for j, pv in enumerate(prog):
             prove(f"progress-in-unit-interval[{j}]", all_of([pv >= 0, pv <= 1]))
             if j:
